@@ -554,6 +554,50 @@ def _stream_run(pm, v):
     wire = _wire(kind, v["frs"])
     cuts = [0] + list(v["cuts"]) + [len(wire)]
     steps = []
+    if v.get("reader") == "loop":
+        # the real receive loop TcpClient.run() on a scripted socket: one piece per recv, and `idle[k]` receive time-outs
+        # (zmq.error.Again, what an idle link produces every 10 s) before piece k and after the last one.  Every recv - piece or
+        # time-out - is one step; what handle_messages() is given until the next recv belongs to it.
+        import zmq
+        pieces = [(a, b) for a, b in zip(cuts, cuts[1:]) if b > a]
+        idle = list(v.get("idle", []))
+        script = []
+        for k, pc in enumerate(pieces):
+            script += [None] * (idle[k] if k < len(idle) else 0) + [pc]
+        script += [None] * (idle[len(pieces)] if len(pieces) < len(idle) else 0)
+
+        class Stop(BaseException):
+            pass
+
+        class Sock:
+            i = 0
+
+            def recv(self, n):
+                if self.i >= len(script):
+                    raise Stop()
+                pc = script[self.i]
+                self.i += 1
+                if pc is None:
+                    steps.append({"n": 0, "out": [], "buflen": len(c.buffer)})
+                    raise zmq.error.Again()
+                steps.append({"n": pc[1] - pc[0], "out": [], "buflen": 0})
+                return bytes(wire[pc[0]:pc[1]])
+
+            def close(self):
+                pass
+
+        def handle(msgs):
+            if not steps:
+                steps.append({"n": 0, "out": [], "buflen": 0})
+            steps[-1]["out"] += [enc.text(m[0]) for m in (msgs or [])]
+
+        c.handle_messages = handle
+        c.connect = lambda: setattr(c, "socket", Sock())
+        try:
+            c.run()
+        except Stop:
+            pass
+        return {"t": "steps", "v": steps}
     for a, b in zip(cuts, cuts[1:]):
         if b <= a:
             continue
@@ -953,6 +997,10 @@ def _link_run(pm, v):
             if (a * 7 + b + self.again) % 5 == 0 and self.again < 2 * len(chunks):
                 self.again += 1
                 import zmq
+                # an idle period is a step of its own (no bytes): whatever the loop hands over or sends during it is recorded
+                tn = v["times"][k if self.i == 0 else chunks[self.i - 1][0]]
+                vnow[0] = tn / 2.0
+                cur.update({"n": 0, "now": tn, "handed": [], "sent": []})
                 raise zmq.error.Again()
             self.i += 1
             vnow[0] = v["times"][k] / 2.0
@@ -965,6 +1013,8 @@ def _link_run(pm, v):
     real_handle = src.handle_messages
 
     def handle(msgs):
+        if not cur:
+            cur.update({"n": 0, "now": v["times"][chunks[0][0]], "handed": [], "sent": []})
         cur["handed"] += [enc.text(m[0]) for m in (msgs or [])]
         return real_handle(msgs)
 
@@ -978,6 +1028,8 @@ def _link_run(pm, v):
         except Stop:
             pass
         except Exception:  # noqa: BLE001
+            if not cur:
+                cur.update({"n": 0, "now": v["times"][chunks[0][0]], "handed": [], "sent": []})
             if cur:
                 steps.append({"n": cur["n"], "now": cur["now"], "handed": cur["handed"], "sent": cur["sent"], "post": [], "exc": 1, "dup": 0})
     finally:
